@@ -103,6 +103,30 @@ def int_in_assign(func, target, pattern):
     raise Bad(f"assignment to {target} not found")
 
 
+def exact_rule(func):
+    """Which exact rule func2func uses for Fraction data: the calls assigned to nodes0to1 / integrator
+    in the `if numbtype is Fraction:` branch.  Returns True for the closed rule, False for the open one."""
+    for node in ast.walk(func):
+        if isinstance(node, ast.If) and ast.unparse(node.test).replace(" ", "") == "numbtypeisFraction":
+            calls = {}
+            for st in node.body:
+                if isinstance(st, ast.Assign) and len(st.targets) == 1 and isinstance(st.targets[0], ast.Name):
+                    calls[st.targets[0].id] = ast.unparse(st.value).replace(" ", "")
+            pair = (calls.get("nodes0to1"), calls.get("integrator"))
+            if pair == ("NodeSample.closed_linspace(nptsinteg)", "IntegratorArray.closed_newton_cotes(nptsinteg)"):
+                return True
+            if pair == ("NodeSample.open_linspace(nptsinteg)", "IntegratorArray.open_newton_cotes(nptsinteg)"):
+                return False
+            raise Bad(f"func2func: unrecognised exact quadrature {pair}")
+    raise Bad("func2func: `if numbtype is Fraction` branch not found")
+
+
+def span_scaled(func):
+    """Is every quadrature weight multiplied by the span length (end - start) in func2func?"""
+    src = ast.unparse(func).replace(" ", "")
+    return "integ=integ*(end-start)" in src
+
+
 def default_of(func, argname):
     args = func.args
     names = [a.arg for a in args.args]
@@ -153,6 +177,8 @@ def main(src_root, out_path):
                       ("tol_dclean", tol_dclean), ("tol_clean", tol_clean)]:
         out.append(f"Definition {name} : Q := {q(val)}.\n")
     out.append(f"Definition ls_quad_extra : nat := {ls_extra[0]}%nat.\n")
+    out.append(f"Definition ls_rule_closed : bool := {'true' if exact_rule(f2f) else 'false'}.\n")
+    out.append(f"Definition ls_span_scaled : bool := {'true' if span_scaled(f2f) else 'false'}.\n")
     out.append(f"Definition mul_colloc_factor : nat := {mul_fac[0]}%nat.\n")
     out.append(f"Definition mul_colloc_plus : nat := {mul_fac[1]}%nat.\n\n")
     out.append(tbl("tbl_node_cheby", table(ns, "__cheby")))
